@@ -13,8 +13,14 @@ import json, os, shutil, subprocess, sys, time, glob, hashlib, tempfile, signal
 
 VERIF = os.path.dirname(os.path.abspath(__file__))
 HARNESS = os.path.join(VERIF, "harness")
-BUILD = os.path.join(VERIF, ".build")
-REPO = os.environ.get("VERIF_REPO", "/repo")
+REPO = os.path.abspath(os.environ.get("VERIF_REPO", "/repo"))
+# a tree other than /repo (a scratch worktree with a seeded change applied) gets its own build and
+# output directories, so that such runs never touch the binaries, evidence or violations of /repo runs
+ALT = REPO != "/repo"
+TAG = hashlib.sha1(REPO.encode()).hexdigest()[:10] if ALT else ""
+BUILD = os.path.join(VERIF, ".build" + ("-" + TAG if ALT else ""))
+EVIDENCE_DIR = os.path.join(VERIF, "evidence") if not ALT else os.path.join(BUILD, "evidence")
+OUT_DIR = os.path.join(VERIF, "out") if not ALT else os.path.join(BUILD, "out")
 NCPU = os.cpu_count() or 4
 
 PROPS = json.load(open(os.path.join(VERIF, "props.json")))
@@ -49,24 +55,37 @@ def run(cmd, **kw):
     return subprocess.run(cmd, **kw)
 
 
+def modfile_args():
+    """go.mod of the harness says `replace elk => /repo`; for another tree use an alternate modfile."""
+    if not ALT:
+        return []
+    os.makedirs(BUILD, exist_ok=True)
+    mf = os.path.join(BUILD, "go.mod")
+    txt = open(os.path.join(HARNESS, "go.mod")).read().replace("=> /repo", "=> " + REPO)
+    open(mf, "w").write(txt)
+    shutil.copyfile(os.path.join(HARNESS, "go.sum"), os.path.join(BUILD, "go.sum"))
+    return ["-modfile=" + mf]
+
+
 def build(prop_id, cfg):
     """Rebuild what the property needs from /repo's current working tree."""
     os.makedirs(BUILD, exist_ok=True)
     env = go_env()
+    mf = modfile_args()
     tags = "verif"
     pkg = "./props/" + prop_id.lower()
-    targets = [([GO, "test", "-c", "-vet=off", "-tags", tags, "-o", os.path.join(BUILD, prop_id.lower() + ".test"), pkg], "test binary")]
+    targets = [([GO, "test"] + mf + ["-c", "-vet=off", "-tags", tags, "-o", os.path.join(BUILD, prop_id.lower() + ".test"), pkg], "test binary")]
     if cfg.get("race"):
-        targets.append(([GO, "test", "-c", "-vet=off", "-race", "-tags", tags, "-o", os.path.join(BUILD, prop_id.lower() + ".race.test"), pkg], "race test binary"))
+        targets.append(([GO, "test"] + mf + ["-c", "-vet=off", "-race", "-tags", tags, "-o", os.path.join(BUILD, prop_id.lower() + ".race.test"), pkg], "race test binary"))
     if cfg.get("worker"):
-        targets.append(([GO, "build", "-tags", tags + " debug", "-o", os.path.join(BUILD, "elkworker.debug"), "./cmd/elkworker"], "worker (debug)"))
-        targets.append(([GO, "build", "-tags", tags, "-o", os.path.join(BUILD, "elkworker"), "./cmd/elkworker"], "worker"))
+        targets.append(([GO, "build"] + mf + ["-tags", tags + " debug", "-o", os.path.join(BUILD, "elkworker.debug"), "./cmd/elkworker"], "worker (debug)"))
+        targets.append(([GO, "build"] + mf + ["-tags", tags, "-o", os.path.join(BUILD, "elkworker"), "./cmd/elkworker"], "worker"))
     if cfg.get("worker_race"):
-        targets.append(([GO, "build", "-race", "-tags", tags, "-o", os.path.join(BUILD, "elkworker.race"), "./cmd/elkworker"], "worker (race)"))
+        targets.append(([GO, "build"] + mf + ["-race", "-tags", tags, "-o", os.path.join(BUILD, "elkworker.race"), "./cmd/elkworker"], "worker (race)"))
     if cfg.get("elkbin"):
-        targets.append(([GO, "build", "-o", os.path.join(BUILD, "elk"), "github.com/elk-language/elk/cmd/elk"], "elk binary"))
+        targets.append(([GO, "build"] + mf + ["-o", os.path.join(BUILD, "elk"), "github.com/elk-language/elk/cmd/elk"], "elk binary"))
     if cfg.get("corpus"):
-        targets.append(([GO, "build", "-o", os.path.join(BUILD, "corpusgen"), "./cmd/corpusgen"], "corpusgen"))
+        targets.append(([GO, "build"] + mf + ["-o", os.path.join(BUILD, "corpusgen"), "./cmd/corpusgen"], "corpusgen"))
     procs = []
     for cmd, what in targets:
         procs.append((subprocess.Popen(cmd, cwd=HARNESS, env=env, stdout=subprocess.PIPE, stderr=subprocess.STDOUT, text=True), what))
@@ -245,7 +264,7 @@ def _check(prop_id, cfg, tier, seed, tmp, start, replay_file):
     tests, distinct, violations, known, inconc, capped = merge(files)
 
     # a shard that died (Go fatal error, os.Exit from code under test, OOM) --------
-    outdir = os.path.join(VERIF, "out", "violations", prop_id)
+    outdir = os.path.join(OUT_DIR, "violations", prop_id)
     for mode, i, rc, lp in crashes:
         j = os.path.join(tmp, "fails", "journal-%d.json" % i)
         t = tail(lp, 6000)
@@ -304,8 +323,8 @@ def _check(prop_id, cfg, tier, seed, tmp, start, replay_file):
         "wall_s": round(time.time() - start, 2), "violations": len(vio_lines),
     }
     if not replay_file:
-        os.makedirs(os.path.join(VERIF, "evidence"), exist_ok=True)
-        json.dump(ev, open(os.path.join(VERIF, "evidence", prop_id + ".json"), "w"), indent=1, ensure_ascii=False)
+        os.makedirs(EVIDENCE_DIR, exist_ok=True)
+        json.dump(ev, open(os.path.join(EVIDENCE_DIR, prop_id + ".json"), "w"), indent=1, ensure_ascii=False)
     for l in vio_lines:
         print(l)
     print("[%s %s seed=%d] evaluations=%d distinct_nontrivial=%d violations=%d known=%d inconclusive=%d wall=%.1fs" % (
